@@ -9,6 +9,9 @@ def main(path):
     r = json.load(open(path))
     pid = r.get("property", "C00")
     ctx = vlib.Ctx(pid, "quick")
+    if r.get("kind") in ("concurrency", "protocol-trace"):
+        from checks import conc
+        return conc.replay(r)
     if r.get("kind") == "proof" or "ops" not in r:
         rc, out = vlib.lake_build(ctx, [f"NodisVerif.Props.{pid}"])
         print(out[-4000:])
